@@ -10,7 +10,10 @@
  *        model shows waiter A woken (the wake reaches THAT waiter).
  * Then the waiter re-acquires; p_cond_variable_wait must return TRUE with M owned by A; B's p_mutex_trylock(M) is now FALSE
  * (A holds it through the public API as well), and after A's p_mutex_unlock B's trylock is TRUE again.
- * M and C are chosen symbolically among two mutexes / two condition variables (the other pair must stay untouched).
+ * C is chosen symbolically among two condition variables; A performs TWO consecutive waits on it, each with an independently
+ * symbolic mutex out of two (equal or different): every wait must hand the mutex of THAT call to the platform (a wrapper that
+ * remembers the mutex of the first wait fails the second), release it at the blocking point and re-own it on return; the
+ * mutex not passed stays untouched.
  */
 #include "verif.h"
 #include "pthread_model.h"
@@ -21,7 +24,7 @@
 
 static PMutex *M, *M_other;
 static PCondVariable *C;
-static int hook_runs, b_used_lock;
+static int hook_runs, b_used_lock, first_mi;
 
 /* context B, run at A's blocking point */
 void other_context(int ci, int mi) {
@@ -46,20 +49,17 @@ void other_context(int ci, int mi) {
   vm_thread_register(a);                  /* A runs again */
 }
 
-void harness(void) {
-  PMutex *m0 = p_mutex_new(), *m1 = p_mutex_new();
-  PCondVariable *c0 = p_cond_variable_new(), *c1 = p_cond_variable_new();
-  VASSERT(m0 && m1 && c0 && c1, "objects created");
-  vm_thread_register(0); vm_thread_register(1);
-  int mi = ND_RANGE(0, 1), ci = ND_RANGE(0, 1);
+/* one complete wait of A on C with the mutex chosen for THIS call */
+static void one_wait(PMutex *m0, PMutex *m1, int nth) {
+  int mi = ND_RANGE(0, 1);
   M = mi ? m1 : m0; M_other = mi ? m0 : m1;
-  C = ci ? c1 : c0;
   vm_self = 0;
   VASSERT(p_mutex_lock(M) == TRUE, "A: p_mutex_lock(M) TRUE");
   pboolean ok = p_cond_variable_wait(C, M);
-  VASSERT(hook_runs == 1, "the wrapper reached the platform wait exactly once");
+  VASSERT(hook_runs == nth, "the wrapper reached the platform wait exactly once per call");
   VASSERT(ok == TRUE, "A: p_cond_variable_wait returns TRUE");
   VASSERT(vm_mutex_owner(vm_mtx_index((pthread_mutex_t *) M)) == 1, "wait returns with the platform mutex of M owned by A");
+  VASSERT(vm_mutex_owner(vm_mtx_index((pthread_mutex_t *) M_other)) == 0, "the mutex NOT passed to this wait is untouched");
   vm_self = 1;
   VASSERT(p_mutex_trylock(M) == FALSE, "after the wait returned, p_mutex_trylock(M) by another thread is FALSE (A holds M)");
   vm_self = 0;
@@ -67,7 +67,22 @@ void harness(void) {
   vm_self = 1;
   VASSERT(p_mutex_trylock(M) == TRUE && p_mutex_unlock(M) == TRUE, "after A's unlock another thread gets M");
   vm_self = 0;
-  if (b_used_lock) VWITNESS("B used p_mutex_lock");
-  if (!b_used_lock && mi == 1 && ci == 0) VWITNESS("B used p_mutex_trylock, pair (C0, M1)");
+  if (nth == 1) first_mi = mi;
+  if (nth == 2 && mi != first_mi) VWITNESS("second wait on the same condition with a DIFFERENT mutex");
+  if (nth == 2 && mi == first_mi) VWITNESS("second wait on the same condition with the same mutex");
+}
+
+void harness(void) {
+  PMutex *m0 = p_mutex_new(), *m1 = p_mutex_new();
+  PCondVariable *c0 = p_cond_variable_new(), *c1 = p_cond_variable_new();
+  VASSERT(m0 && m1 && c0 && c1, "objects created");
+  vm_thread_register(0); vm_thread_register(1);
+  int ci = ND_RANGE(0, 1);
+  C = ci ? c1 : c0;
+  /* two consecutive waits on the SAME condition object, each completed before the next starts, mutexes chosen independently:
+   * the platform must get the mutex passed to THAT call (a wrapper remembering the first mutex fails the second wait) */
+  one_wait(m0, m1, 1);
+  one_wait(m0, m1, 2);
+  if (b_used_lock) VWITNESS("B used p_mutex_lock (last wait)");
   VWITNESS("end");
 }
